@@ -384,6 +384,8 @@ def derive_source(ctx, report, rule, facts, config):
         loops = Q.all_loops([e])
         for x in _deep_all(e.path.events):
             if x[0] == "call" and x[2].name == "quote_into_iter" and "quote::" in (x[2].path or "") and x[3]:
+                if "RepToTokensExt" in (x[2].path or ""):
+                    continue    # a plain value mentioned inside a repetition: repeated as is, it does not bound the repetition
                 n_lists += 1
                 why = complete(e, x[3][0], loops)
                 if why:
